@@ -576,6 +576,12 @@ class STensor:
     def narrow(self, dim, start, length) -> "STensor":
         sl = [slice(None)] * self.ndim
         dim %= self.ndim
+        n = self.shape[dim]
+        start = int(start)
+        if start < 0:
+            start += n  # torch: a negative start counts from the end of the dimension
+        if start < 0 or length < 0 or start + length > n:
+            raise InterpError("RuntimeError", f"narrow: start ({start}) + length ({length}) exceeds dimension size ({n})")
         sl[dim] = slice(start, start + length)
         return self[tuple(sl)]
 
@@ -1383,6 +1389,8 @@ def _truth(x) -> bool:
 
 _FLOAT_WIDTH = {"float16": 16, "bfloat16": 16, "float32": 32, "float64": 64}
 GRAPH_EVENTS: List[Tuple[str, int]] = []  # (blocker, id of the operand's storage): detach() / .data taken of a tensor while an obligation ran
+ROUND_EVENTS: List[Any] = []  # decimals of every round-to-decimals the library applied while an obligation ran (values stay exact, see ROUND_EXACT)
+ROUND_EXACT = [0]  # > 0 while deepali.core.math.round_decimals is interpreted: torch.round is then the identity on values (fresh tensor or out=)
 PRECISION_EVENTS: List[Tuple[str, str]] = []  # (narrow, wide): a tensor computed in a narrower float type entered wider arithmetic
 
 
